@@ -21,6 +21,7 @@ pub mod c14;
 pub mod c14a;
 pub mod c14b;
 pub mod c14c;
+pub mod c15;
 pub mod c16;
 pub mod c18;
 pub mod c19;
@@ -43,6 +44,7 @@ pub fn run(prop: &str, report: &Report) -> i32 {
         "C12" => c12::run(report),
         "C13" => c13::run(report),
         "C14" => c14::run(report),
+        "C15" => c15::run(report),
         "C16" => c16::run(report),
         "C18" => c18::run(report),
         "C19" => c19::run(report),
@@ -87,6 +89,7 @@ pub fn replay(f: &Failure) -> i32 {
         "c14c-log-long" | "c14c-log-short" => crate::core::replay_case(f, c14c::case_log),
         "c14c-cache-long" | "c14c-cache-short" => crate::core::replay_case(f, c14c::case_cache),
         "c13" => crate::core::replay_case(f, c13::case),
+        "c15-migrate" | "c15-ignore" => crate::core::replay_case(f, c15::case),
         "c16" => crate::core::replay_case(f, c16::case),
         "c18" => crate::core::replay_case(f, c18::case),
         "c19" | "c19-enum" => crate::core::replay_case(f, c19::case),
